@@ -36,6 +36,12 @@ def run(tier, seed):
             for NI in ((1, 2) if tier == "quick" else (1, 2, 4)):
                 for k in range(0, 2 * NG):
                     cmds.append([exe, fn, str(NG), str(NI), str(k), "0" if k <= (3 if NI > 1 else 5) else "1"])
+    # more than 64 quadrature points in all (the routines evaluate the integrand in batches of at most 64 abscissae), with a first
+    # batch that does not divide 64: NG*NI = 88, 78, 72
+    for fn in ("dgmlt1", "dgmlt2"):
+        for NG, NI in ((8, 11), (6, 13), (8, 9)):
+            for k in (0, 1, 2, 5):
+                cmds.append([exe, fn, str(NG), str(NI), str(k), "0" if k <= 1 else "1"])
     for N in (4, 8):
         cmds.append([exe, "tsimpr", str(N)])
     for N in (4, 5, 8, 9):   # requested step w/(N+d), d symbolic in [-0.2, 0.7]: not commensurate with the interval
